@@ -164,11 +164,8 @@ func execTicks(c *hx.Case) (*hx.Result, error) {
 		job.HandleRegisterOperator(&jobpb.NodeIdentity{Id: opIDs[i], Host: "h"})
 		job.HandleRegisterSourceRunner(&jobpb.NodeIdentity{Id: srIDs[i], Host: "h"})
 	}
-	deadline := time.Now().Add(20 * time.Second)
+	// no deadline on any wait here: a job that never gets there is a hang, reported by the supervisor of hx
 	for job.VerifStatus() != "Running" {
-		if time.Now().After(deadline) {
-			return nil, fmt.Errorf("the job did not reach Running (status %s)", job.VerifStatus())
-		}
 		job.VerifSync()
 		time.Sleep(200 * time.Microsecond) // waiting for the status, an explicit signal of the job
 	}
@@ -194,6 +191,7 @@ func execTicks(c *hx.Case) (*hx.Result, error) {
 	}
 	var acts []string
 	var pending uint64
+	isSavepoint := map[uint64]bool{}
 	tags := map[string]bool{}
 	for _, raw := range c.Ops {
 		var o struct {
@@ -213,7 +211,9 @@ func execTicks(c *hx.Case) (*hx.Result, error) {
 				tags["tick-while-pending"] = true
 			}
 		case "sp":
-			job.HandleCreateSavepoint(ctx)
+			if id, err := job.HandleCreateSavepoint(ctx); err == nil {
+				isSavepoint[id] = true
+			}
 			acts = append(acts, "1")
 			if pending != 0 {
 				tags["savepoint-folds"] = true
@@ -230,11 +230,19 @@ func execTicks(c *hx.Case) (*hx.Result, error) {
 				job.HandleOperatorCheckpointComplete(ctx, &snapshotpb.OperatorCheckpoint{CheckpointId: pending, OperatorId: id,
 					DkvFileUri: filepath.Join(dir, "work", id, "checkpoints"), KeyGroupRange: &snapshotpb.KeyGroupRange{Start: int32(i), End: int32(i + 1)}})
 			}
-			// the publication is asynchronous: wait until the job knows the checkpoint
-			dl := time.Now().Add(20 * time.Second)
+			// the publication is asynchronous (job file, then - for a savepoint - the artifact copy): wait until all of it
+			// is done, so that nothing of this job still writes when the case directory is removed
 			for job.VerifCurrentCheckpointID() != pending {
-				if time.Now().After(dl) {
-					return nil, fmt.Errorf("checkpoint %d was acknowledged by every node but never completed", pending)
+				time.Sleep(200 * time.Microsecond)
+			}
+			for isSavepoint[pending] {
+				if _, err := job.HandleGetSavepointURI(ctx, pending); err == nil {
+					break
+				}
+				select {
+				case e := <-errs:
+					return nil, fmt.Errorf("savepoint %d of the tick scenario failed: %v", pending, e)
+				default:
 				}
 				time.Sleep(200 * time.Microsecond)
 			}
